@@ -134,16 +134,33 @@ LINE_BREAKS = ["\n", "\n", "\r\n", "\r"]
 NOT_BREAKS = ["\x0b", "\x0c", "\x1c", "\x1d", "\x1e", "\x85", "\u2028", "\u2029"]
 
 
+# escape sequences of string literals: source text -> decoded text.  The ones that decode to a line feed do not break a
+# line of the file and must not move any line number (only RAW line feeds inside a literal do)
+ESCAPES = [("\\n", "\n"), ("\\N", "\n"), ("\\u000a", "\n"), ("\\u000A", "\n"), ("\\U0000000a", "\n"), ("\\U0000000A", "\n"),
+           ("\\r\\n", "\r\n"), ("\\r", "\r"), ("\\t", "\t"), ("\\\\n", "\\n"), ("\\u2028", "\u2028"), ("\\u0041", "A")]
+
+
 def raw_literal(rng, head=""):
-    """a quoted string literal with raw separators: (token, value as the parser sees it, physical lines - 1)"""
-    import re
+    """a quoted string literal with raw separators and escape sequences:
+    (token, value as the parser decodes it, physical lines - 1 = RAW line breaks only)"""
     n = rng.choice([0, 1, 1, 2, 3])
-    body = head
+    src, val, extra = head, head, 0
     for _ in range(n):
-        body += rng.choice(LINE_BREAKS + NOT_BREAKS + NOT_BREAKS[:4]) + rng.choice(["", "q", "x y", "z"])
+        r = rng.random()
+        if r < 0.4:
+            e = rng.choice(ESCAPES)
+            src, val = src + e[0], val + e[1]
+        else:
+            c = rng.choice(LINE_BREAKS + NOT_BREAKS + NOT_BREAKS[:4])
+            src += c
+            if c in ("\n", "\r\n", "\r"):        # universal newlines of DSDLDefinition.text
+                val, extra = val + "\n", extra + 1
+            else:
+                val += c
+        t = rng.choice(["q", "x y", "z"])        # never empty: a raw CR must not meet a following raw LF
+        src, val = src + t, val + t
     q = rng.choice("'\"")
-    seen = re.sub(r"\r\n|\r", "\n", body)          # universal newlines of DSDLDefinition.text
-    return q + body + q, seen, seen.count("\n")
+    return q + src + q, val, extra
 
 
 def filler_stmt(rng, ctr, kind):
@@ -154,8 +171,10 @@ def filler_stmt(rng, ctr, kind):
         return field("a%d" % i, rng.choice(["uint8", "bool", "float32", "int16"]))
     if r < 0.45:
         return st(T("uint8", "[", "<=", str(rng.randrange(1, 9))) + [["]", "m"], ["b%d" % i, "o"]], ["i"], {"k": "field", "name": "b%d" % i, "ty": None, "cf": False})
-    if r < 0.6:
+    if r < 0.55:
         return const([["uint8", "m"]], "C%d" % i, T(str(rng.randrange(0, 200))))
+    if r < 0.6:
+        return const([["uint8", "m"]], "LF%d" % i, T(rng.choice(["'\\n'", '"\\n"', "'\\u000a'", "'\\U0000000A'", "'\\t'"])))
     if r < 0.7 and kind != "union":
         return st([["void%d" % rng.randrange(1, 9), "o"]], [], {"k": "pad", "ty": None, "cf": False})
     if r < 0.78:
@@ -443,6 +462,15 @@ def targeted():
     out.append(mk([("ns/M.1.0.dsdl", True, [L(c=" h"), L(bare()), L(sealed), L(dict(MARKER)), L(), L(bare()), L(sealed)], None)]))
     out.append(mk([("ns/M.1.0.dsdl", True, [L(ref_field("lk.L1.1.0", 2, "z")), L(bare()), L(sealed)], None),
                    ("lk/L1.1.0.dsdl", False, [L(field("a")), L(), L(bare()), L(sealed)], None)]))
+    # seeded C17-r4-3: ESCAPED line feeds inside literals (constant, @print, @assert) do not move the line counter
+    esc = '"Hello\\r\\nworld!\\n\\u000a\\U0000000A"'
+    esc_val = "Hello\r\nworld!\n\n\n"
+    out.append(mk([("ns/M.1.0.dsdl", True, [L(const([["uint8", "m"]], "LF", T("'\\n'"))), L(dirv("print", "other", T(esc), shown=repr(esc_val))),
+                                            L(dirv("assert", ["b", True], T("'a\\nb'", "!=", "''"))), L(sealed), L(p222),
+                                            L(dirv("assert", ["b", False], T("false")))], 6)], "dir:assert-false", 1, 0, 0))
+    out.append(mk([("ns/M.1.0.dsdl", True, [L(ref_field("Z.1.0", 2, "z")), L(sealed)], None),
+                   ("ns/Z.1.0.dsdl", True, [L(dirv("print", "other", T(esc), shown=repr(esc_val))), L(field("truncated", cf=True)), L(c=" c"), L(sealed)], 2)],
+                  "commit:name-reserved", 2, 1, 1))
     # seeded C17-r3-3: a statement nested too deeply for the PEG engine, NOT on the first line: path, no line
     deep = lambda: {"toks": [["@assert " + "(" * 300 + "1" + ")" * 300 + " == 1", "o"]], "pre": [], "act": {"k": "syntax"}, "extra": 0, "raw": True}
     c = mk([("ns/M.1.0.dsdl", True, [L(field("a")), L(), L(c=" x"), L(deep()), L(sealed)], None)], "syntax:deep", 1, 0, 0)
